@@ -163,6 +163,68 @@ func runC29(c *eng.Ctx) {
 			okShape = isS && s == "/"
 		}
 		c.Ob("SIB-escape", eng.FuncName(fe)+" per-segment", okShape, fe.Pos(), "urlPathEscape escapes every '/'-separated segment with url.PathEscape")
+		// ... every segment, unconditionally: each element appended to the result is the escaped form (a segment that
+		// "looks escaped" is still data: forwarded as is, the filer decodes it once more into '..' or '/')
+		okEvery := len(pe) == 1
+		nApp := 0
+		for _, in := range eng.Find(fe, eng.PlainCallTo("builtin.append")) {
+			nApp++
+			for _, el := range eng.VarargValues(in.(*ssa.Call).Call.Args[1]) {
+				if call, isCall := eng.Unwrap(el).(*ssa.Call); !isCall || !eng.CalleeIs(call, "url.PathEscape") {
+					okEvery = false
+				}
+			}
+		}
+		if okEvery && len(pe) == 1 {
+			// and no iteration skips the append
+			cyc := eng.CycleOf(pe[0].Block())
+			for b := range cyc {
+				if b.Comment != "rangeindex.body" {
+					continue
+				}
+				var header *ssa.BasicBlock
+				for _, p := range b.Preds {
+					if cyc[p] {
+						header = p
+					}
+				}
+				if header != nil {
+					if hit, _ := eng.Search(eng.Loc{B: b}, func(in ssa.Instruction) bool { return in.Block() == header }, eng.SearchOpt{Barrier: eng.Is(pe[0])}); hit != nil {
+						okEvery = false
+					}
+				}
+			}
+		}
+		c.Ob("SIB-escape", eng.FuncName(fe)+" every-segment-escaped", okEvery && nApp > 0, fe.Pos(), "every segment reaches the result escaped; none is forwarded as received")
+	}
+	// the internal upload area written by a handler is the one of the bucket the request is addressed to, never of a
+	// bucket named by the copy source
+	nUp := 0
+	for _, fn := range P.SrcFuncs("weed/s3api") {
+		for _, in := range eng.Find(fn, eng.PlainCallTo("s3api.S3ApiServer).genUploadsFolder")) {
+			call := in.(*ssa.Call)
+			arg := eng.Arg(call, 0)
+			nUp++
+			fromSource := eng.Mentions(arg, 8, func(v ssa.Value) bool {
+				ex, ok := v.(*ssa.Extract)
+				if !ok {
+					return false
+				}
+				cl, isC := ex.Tuple.(*ssa.Call)
+				return isC && eng.CalleeIs(cl, "s3api.pathToBucketAndObject")
+			})
+			if eng.Mentions(arg, 8, func(v ssa.Value) bool {
+				cl, isC := v.(*ssa.Call)
+				return isC && eng.CalleeIs(cl, "http.Header).Get")
+			}) {
+				fromSource = true
+			}
+			c.Touch(fn)
+			c.Ob("GUARD-uploads-area", fmt.Sprintf("%s upload-area-of-request-bucket#%d", eng.FuncName(fn), ordOf(fn, in)), !fromSource, call.Pos(), "the upload area a handler works in belongs to the bucket of the request (router variable / API input), not to a bucket named by the copy source")
+		}
+	}
+	if nUp == 0 {
+		c.Undecided("GUARD-uploads-area", "genUploadsFolder", token.NoPos, "no use of the upload area found")
 	}
 	nSkip := 0
 	nS3 := 0
@@ -185,7 +247,7 @@ func runC29(c *eng.Ctx) {
 	} else if nSkip == 0 {
 		c.Ob("SIB-escape", "router-cleans-paths", true, token.NoPos, "no router handed to the S3 API server disables path cleaning")
 	}
-	c.Expect("SIB-escape", 4)
+	c.Expect("SIB-escape", 5)
 
 	// ---------------------------------------------------------------- (3) GUARD-uploads-area
 	if fn := c.NeedFunc("weed/s3api", "(*S3ApiServer).doListFilerEntries"); fn != nil {
@@ -259,6 +321,23 @@ func runC29(c *eng.Ctx) {
 		}
 		c.Ob("GUARD-uploads-area", eng.FuncName(fn)+" refuses-internal-keys", ok, fn.Pos(), "an object key inside the bucket's internal upload area is refused before the filer is touched")
 	}
-	c.Expect("GUARD-uploads-area", 6)
+	c.Expect("GUARD-uploads-area", 16)
 	_ = nE
+}
+
+// ordOf: the ordinal of in among the calls to the same callee in fn (stable obligation keys).
+func ordOf(fn *ssa.Function, in ssa.Instruction) int {
+	n := 0
+	want := eng.Callee(in.(ssa.CallInstruction))
+	for _, b := range fn.Blocks {
+		for _, x := range b.Instrs {
+			if c, ok := x.(ssa.CallInstruction); ok && eng.Callee(c) == want {
+				n++
+				if x == in {
+					return n
+				}
+			}
+		}
+	}
+	return n
 }
